@@ -78,7 +78,15 @@ def artefacts(scratch: str) -> Dict[str, Any]:
     return {"sinks": sinks, "traces": traces + others, "log": list(components.LOG)}
 
 
-def invoke(cfg_name: str, spec: Optional[dict], raw: Optional[str], flags: List[str], ctx: Dict[str, Any], sets: List[str], cap: Optional[int], scratch: str):
+DECOY_RS = {"blocks": [{"mode": "by_position", "context": {"value": [77.0], "a": [0.0]}}]}  # must be ignored when --run-space-file is given
+
+
+def invoke(cfg_name: str, spec: Optional[dict], raw: Optional[str], flags: List[str], ctx: Dict[str, Any], sets: List[str], cap: Optional[int], scratch: str,
+           var: Optional[dict] = None):
+    var = var or {}
+    place, dry = var.get("place", "top"), var.get("dry", "none")
+    flags = list(flags)
+    sets = list(sets)
     harness.clear_dir(scratch)
     harness.reset_log()
     yp = os.path.join(scratch, "p.yaml")
@@ -89,7 +97,20 @@ def invoke(cfg_name: str, spec: Optional[dict], raw: Optional[str], flags: List[
         cfg: Dict[str, Any] = {"extensions": ["verif_lib"], "pipeline": {"nodes": copy.deepcopy(spec["nodes"])},
                                "trace": {"driver": "jsonl", "output_path": os.path.join(scratch, "tdir")}}
         if spec["rs"] is not None:
-            cfg["run_space"] = copy.deepcopy(spec["rs"])
+            rs = copy.deepcopy(spec["rs"])
+            if dry == "declared":
+                rs["dry_run"] = True
+            elif dry == "declared-false-then-set":
+                rs["dry_run"] = False
+                sets.append(("pipeline.run_space" if place == "nested" else "run_space") + ".dry_run=true")
+            if place == "top":
+                cfg["run_space"] = rs
+            elif place == "nested":
+                cfg["pipeline"]["run_space"] = rs
+            else:
+                cfg["run_space"] = copy.deepcopy(DECOY_RS)
+                cli.write_yaml(os.path.join(scratch, "rs.yaml"), {"run_space": rs} if place == "file" else rs)
+                flags += ["--run-space-file", os.path.join(scratch, "rs.yaml")]
         cli.write_yaml(yp, cfg)
         with open(os.path.join(scratch, "va.csv"), "w") as f:
             f.write("value,a\n1.0,0.0\n2.0,0.5\n")
@@ -149,16 +170,19 @@ def reference_outcome(nodes_: List[dict], ctx: Dict[str, Any]) -> Tuple[str, Opt
     return "ok", None
 
 
-def judge(cfg_name: str, spec: Optional[dict], raw: Optional[str], flags: List[str], ctx: Dict[str, Any], sets: List[str], cap: Optional[int], scratch: str):
-    res, art = invoke(cfg_name, spec, raw, flags, ctx, sets, cap, scratch)
-    case = {"config": cfg_name, "flags": flags, "ctx": ctx, "sets": sets, "cap": cap}
+def judge(cfg_name: str, spec: Optional[dict], raw: Optional[str], flags: List[str], ctx: Dict[str, Any], sets: List[str], cap: Optional[int], scratch: str,
+          var: Optional[dict] = None):
+    res, art = invoke(cfg_name, spec, raw, flags, ctx, sets, cap, scratch, var)
+    case = {"config": cfg_name, "flags": flags, "ctx": ctx, "sets": sets, "cap": cap, "var": var}
+    if var:
+        cfg_name = f"{cfg_name}[run space {var.get('place', 'top')}, dry run {var.get('dry', 'none')}]"
     out: List[Tuple[str, str, dict]] = []
     executed = bool(art["sinks"] or art["traces"] or art["log"])
 
     def bad(sig, msg):
         out.append((sig, f"{cfg_name} flags={flags} ctx={ctx} set={sets} cap={cap}: {msg} [exit {res.code}; stderr {res.err.strip()[-160:]!r}]", case))
 
-    no_exec_flag = any(f in flags for f in ("--validate", "--dry-run", "--run-space-dry-run"))
+    no_exec_flag = any(f in flags for f in ("--validate", "--dry-run", "--run-space-dry-run")) or (var or {}).get("dry", "none") != "none"
     # O1: pre-flight rejection or a no-execution flag => nothing ran
     if (res.code in (1, 2, 3) or no_exec_flag) and executed:
         bad(f"executed-despite-{'flag' if no_exec_flag else 'rejection'}", f"artefacts found: {art}")
@@ -211,7 +235,7 @@ def judge(cfg_name: str, spec: Optional[dict], raw: Optional[str], flags: List[s
     if first_fail is not None and res.code != EXIT_RUNTIME:
         bad("wrong-exit-code|runtime", "a failing run must exit 4")
     done = len(runs) if first_fail is None else first_fail
-    want_sinks = sorted((f"out_{r['value']}_{r['a']}.txt" if cfg_name == "rs-source-combinatorial" else f"out_{r['value']}.txt") for r in runs[:done])
+    want_sinks = sorted((f"out_{r['value']}_{r['a']}.txt" if cfg_name.startswith("rs-source-combinatorial") else f"out_{r['value']}.txt") for r in runs[:done])
     if art["sinks"] != want_sinks:
         bad("wrong-artefacts-after-failure" if first_fail is not None else "wrong-artefacts", f"sink files {art['sinks']} expected {want_sinks}")
     started = len(runs) if first_fail is None else first_fail + 1
@@ -242,6 +266,17 @@ def invocations(tier: str):
             if tier == "quick" and sets and flags and len(flags) > 1:
                 continue
             yield (name, flags, ctx, sets, cap)
+    # where the run space is declared x how a run-space dry run is requested (besides the command-line flag)
+    for name in ("valid-rs", "rs-fail-at-1", "rs-cap-exceeded", "rs-length-mismatch", "rs-source-combinatorial", "rs-missing-key"):
+        spec = cfgs[name]
+        for place in ("top", "nested", "file", "file-bare"):
+            for dry in ("none", "declared", "declared-false-then-set"):
+                if (place == "top" and dry == "none") or (place.startswith("file") and dry == "declared-false-then-set"):
+                    continue  # the default, covered above; --set edits the YAML, which a --run-space-file block then replaces
+                for flags in ([[]] if tier == "quick" else [[], ["--dry-run"], ["--validate"]]):
+                    for cap in ([None] if tier == "quick" else [None, 1, 1000]):
+                        for ctx in [{k: gen.KEY_VALUES[k] for k in spec["needs"]}] + ([{}] if spec["needs"] else []):
+                            yield (name, flags, ctx, [], cap, {"place": place, "dry": dry})
     for rawname in RAW_FILES:
         for flags in flagsets[:4]:
             yield ("raw:" + rawname, flags, {}, [], None)
@@ -254,17 +289,19 @@ def _worker(chunk):
     scratch = harness.enter_scratch()
     cfgs = configs()
     out = {"n": 0, "viol": [], "codes": {}, "executed": 0, "nontrivial": set()}
-    for name, flags, ctx, sets, cap in chunk:
+    for item in chunk:
+        name, flags, ctx, sets, cap = item[:5]
+        var = item[5] if len(item) > 5 else None
         if name.startswith("raw:"):
             v, code, ex = judge(name, {"nodes": []}, RAW_FILES[name[4:]], flags, ctx, sets, cap, scratch)
         elif name == "missing-file":
             v, code, ex = judge(name, None, None, flags, ctx, sets, cap, scratch)
         else:
-            v, code, ex = judge(name, cfgs[name], None, flags, ctx, sets, cap, scratch)
+            v, code, ex = judge(name, cfgs[name], None, flags, ctx, sets, cap, scratch, var)
         out["n"] += 1
         out["codes"][str(code)] = out["codes"].get(str(code), 0) + 1
         out["executed"] += 1 if ex else 0
-        out["nontrivial"].add(core.sha([name, code, ex, sorted(flags)]))
+        out["nontrivial"].add(core.sha([name, code, ex, sorted(flags), var]))
         out["viol"].extend(v)
     out["nontrivial"] = list(out["nontrivial"])
     return out
@@ -290,7 +327,9 @@ def check(tier: str, seed: int) -> Result:
                 "require; unknown processor / parameter; probe without key; type incompatibility adjacent and across a context-only node; run-"
                 "space length mismatch, duplicate keys, missing source, cap exceeded, missing key) + YAML error / missing file / missing "
                 "pipeline.nodes x flag subsets of {--validate, --dry-run, --run-space-dry-run} x context {all, one missing, none, extra, "
-                "failure marker} x --set {none, unknown paths, valid} x --run-space-max-runs {none, 1, 1000}. distinct_nontrivial = distinct "
+                "failure marker} x --set {none, unknown paths, valid} x --run-space-max-runs {none, 1, 1000}; run-space configurations also x "
+                "declaration place {top level, under pipeline:, --run-space-file with / without run_space: wrapper (a decoy block in the YAML)} x "
+                "dry-run request {none, dry_run: true in the block, --set run_space.dry_run=true}. distinct_nontrivial = distinct "
                 "(configuration, exit code, executed?, flags) combinations observed",
         "exit_codes_observed": codes, "invocations_that_executed": executed,
         "samples": [{"config": "use-before-create", "flags": [], "ctx": {"value": 9.0}}], "exhaustive": True,
@@ -305,5 +344,5 @@ def check(tier: str, seed: int) -> Result:
 def replay(case) -> List[Violation]:
     harness.quiet()
     scratch = harness.enter_scratch()
-    o = _worker([(case["config"], case["flags"], case["ctx"], case["sets"], case["cap"])])
+    o = _worker([(case["config"], case["flags"], case["ctx"], case["sets"], case["cap"], case.get("var"))])
     return [Violation(s, m, c) for s, m, c in o["viol"]]
